@@ -5,8 +5,9 @@ RULE = ("per case a pool of 1-8/10 distinct timestamped messages (balances incl.
         "timestamps from 1..2/3/6 so ties are frequent) is delivered as a random permutation WITH repetition (length pool..2*pool+2) through "
         "EngineState::update_from_account / update_from_market; every register is observed after every delivery. 10% of L1 messages carry a payload time "
         "different from the event time (model vs code only; the spec is silent). Thorough: additionally every delivery sequence of length <= 5 over 6 messages "
-        "(3 timestamps x 2 values) for each of the four register kinds (3 x 9330 sequences; the order kind has 8 messages - the 6 open reports, a cancel request and a "
-        "terminal report -, 37448 sequences). Distinct by SHA-1 of op lines; non-trivial when an observed register changes at least once")
+        "(3 timestamps x 2 values) for each of the four register kinds (9330 sequences each for balances and trades; 19607 for L1, which has a 7th message, an emptied book; 37448 for orders, "
+        "which have 8 messages: the 6 open reports, a cancel request and a terminal report). A fifth of the random cases is the life of ONE order (2-4 open reports, a terminal "
+        "report, possibly a cancel request and an account snapshot repeating part of it, delivered in random order with repetition). Distinct by SHA-1 of op lines; non-trivial when an observed register changes at least once")
 ASSUMPTIONS = [
     "L1 events carry last_update_time = time_exchange (the guard compares the event time but stores the payload's own time); otherwise modelled but outside the spec",
     "trade prices are finite (Decimal::from_f64 succeeds); exchange times are after the Unix epoch (the default OrderBookL1 carries the epoch timestamp)",
